@@ -68,6 +68,65 @@ def check_pixels(case, ctx):
 
 
 @st.composite
+def s_intforms(draw):
+    """integer-valued diagrams held as narrow integer arrays (an 8-bit image filtration gives uint8 births and deaths), an integer exponent
+    of the persistence weight, and the scalar variance of the isotropic kernel given as the scalar types users hold it in"""
+    nb, npx = draw(st.integers(2, 6)), draw(st.integers(2, 6))
+    g = {"pixel": draw(st.sampled_from([1.0, 2.0, 4.0])), "b_lo": draw(st.integers(0, 3)), "nb": nb, "p_lo": 0, "np": npx}
+    s = g["pixel"]
+    n = draw(st.integers(1, 4))
+    pts = [[int((g["b_lo"] + draw(st.integers(0, nb))) * s), int(draw(st.integers(1, 5 * npx)) * s)] for _ in range(n)]     # (birth, persistence)
+    return {"grid": g, "pts": pts, "n": draw(st.sampled_from([1, 2, 3, 2.0])), "var": draw(st.sampled_from([1, 2, 4.0, 0.5])),
+            "var_type": draw(st.sampled_from(["python", "python", "np.float64", "np.int64", "np.float32", "0-d array"])),
+            "dtype": draw(st.sampled_from(["uint8", "int16", "int64", "list", "float64"])), "skew": draw(st.booleans())}
+
+
+def check_intforms(case, ctx):
+    g, pts = case["grid"], case["pts"]
+    var = case["var"]
+    vt = case["var_type"]
+    if vt == "np.int64" and float(var).is_integer():
+        sig = np.int64(int(var))
+    elif vt == "np.float32":
+        sig = np.float32(var)           # 0.5, 1, 2, 4 are exact in single precision
+    elif vt == "np.float64":
+        sig = np.float64(var)
+    elif vt == "0-d array":
+        sig = np.array(float(var))
+    else:
+        sig = var
+    spec = {"grid": g, "kernel": {"type": "scalar", "var": float(var)}, "weight": {"type": "persistence", "n": float(case["n"])}}
+    from persim import PersistenceImager
+    br, pr = I.grid_ranges(g)
+    imgr = ctx.call(PersistenceImager, birth_range=br, pers_range=pr, pixel_size=g["pixel"], weight="persistence", weight_params={"n": case["n"]},
+                    kernel="gaussian", kernel_params={"sigma": sig})
+    rows = I.to_bd(pts) if case["skew"] else pts
+    dt = case["dtype"]
+    hi = max(v for q in rows for v in q)
+    if dt == "uint8" and hi > 255:
+        dt = "int16"
+    arr = [[int(v) for v in q] for q in rows] if dt == "list" else np.array(rows, dtype=getattr(np, dt))
+    pmax = max(q[1] for q in pts)
+    wraps = dt in ("uint8", "int16") and float(pmax) ** float(case["n"]) > (255 if dt == "uint8" else 32767)
+    ctx.label("dtype:" + dt, "variance_as:" + vt, "n=%r" % (case["n"],), "persistence^n_exceeds_dtype" if wraps else None)
+    ctx.nontrivial(wraps or vt not in ("python", "np.float64"))
+    img = np.asarray(ctx.call(imgr.transform, arr, skew=case["skew"]))
+    s = g["pixel"]
+    ref = np.zeros((g["nb"], g["np"]))
+    wsum = 0.0
+    for b, p in pts:
+        w = float(p) ** float(case["n"])
+        wsum += w
+        for i in range(g["nb"]):
+            for j in range(g["np"]):
+                ref[i, j] += w * I.pixel_mass_ref(spec["kernel"], (float(b), float(p)), br[0] + i * s, br[0] + (i + 1) * s, pr[0] + j * s, pr[0] + (j + 1) * s)
+    err = np.abs(img - ref)
+    ctx.require(img.shape == ref.shape and np.all(err <= 1e-7 * wsum + 1e-300), "pixel_value_integer_forms",
+                lambda: "max |image - weighted kernel mass| = %.3g (total weight %.3g); diagram %s as %s (skew=%s), persistence weight n=%r, variance %r given as %s"
+                % (err.max(), wsum, rows, dt, case["skew"], case["n"], var, vt))
+
+
+@st.composite
 def s_axes(draw):
     g = draw(I.grid_spec(8))
     if g["nb"] == g["np"]:
@@ -103,12 +162,23 @@ def check_axes(case, ctx):
 
 
 def VALID_DEFAULT(case):
+    if "var_type" in case:
+        try:
+            g = case["grid"]
+            return g["pixel"] in (1.0, 2.0, 4.0) and g["nb"] >= 1 and g["np"] >= 1 and len(case["pts"]) >= 1 and all(
+                isinstance(q[0], int) and isinstance(q[1], int) and q[1] >= 1 and q[0] >= 0 for q in case["pts"]) and case["n"] in (1, 2, 3, 2.0) and case["var"] in (1, 2, 4.0, 0.5)
+        except Exception:
+            return False
     if "spec" in case:
         return I.valid_spec(case["spec"]) and len(case["pts"]) >= 1 and all(len(q) == 2 and q[1] >= 0 for q in case["pts"])
     return case["grid"]["pixel"] > 0 and case["grid"]["nb"] >= 1 and case["grid"]["np"] >= 1
 
 
 CLAUSES = [
+    Clause("integer_forms", s_intforms(), check_intforms, quick=1500, thorough=20000,
+           rule="integer-valued diagrams as uint8 / int16 / int64 arrays, nested int lists or float arrays, persistence weight with an integer or float "
+                "exponent, isotropic Gaussian kernel whose scalar variance is a Python number, np.float64, np.int64, np.float32 or a 0-d array: every pixel "
+                "equals the weighted kernel mass (1e-7 of the total weight); non-trivial = persistence^n exceeds the diagram's integer dtype, or a NumPy scalar variance"),
     Clause("pixels", s_pixels(), check_pixels, quick=4000, thorough=40000,
            floors={"fast_path": 0.15, "general_path": 0.15},
            rule="every pixel of transform(diagram) vs sum_i weight_i * (kernel mass of the pixel square); non-trivial = >= 2 points and some "
